@@ -50,6 +50,10 @@ func StartLoops(parent context.Context, n *Node, names ...string) *Loops {
 				n.M.DataStoreRetrieveLoop(ctx)
 			case "daIncluder":
 				n.M.DAIncluderLoop(ctx, l.ErrCh)
+			case "headerSubmit":
+				n.M.HeaderSubmissionLoop(ctx)
+			case "dataSubmit":
+				n.M.DataSubmissionLoop(ctx)
 			default:
 				panic("unknown loop " + name)
 			}
